@@ -807,7 +807,7 @@ fn exec_twin(out: &mut Out, line: &str, w: &[&str]) -> (String, bool) {
             *l = if *l == 'y' { 'w' } else { 'y' };
         }
         let t: String = cs.into_iter().collect();
-        if t.len() == tpath.len() { t } else { format!("{}~", &tpath[..tpath.len().saturating_sub(1)]) }
+        if t.len() == tpath.len() { t } else { format!("/{}", "y".repeat(tpath.len().saturating_sub(1))) }
     };
     let decoy_reqs: Vec<Message> = [
         (b"{\"unterminated".to_vec(), 2u16, "/decoy/a"),
